@@ -45,3 +45,31 @@ fn vx_witness_bubble_guess() {
     }
     println!("explored: {n_ok} converged bubble/dew points, {n_bad} with unequal fugacities");
 }
+
+/// "the phases are not copies of each other": asymmetric mixtures at and above the mixture critical temperature, where
+/// the incipient phase tends to collapse onto the specified one - an Ok result must still consist of two phases
+#[test]
+fn vx_witness_bubble_guess_copies() {
+    let mut n_bad = 0;
+    for (a, b) in [("methane", "hexane"), ("carbon dioxide", "hexane"), ("methane", "butane")] {
+        let Ok(params) = PcSaftParameters::from_json(vec![a, b], "tests/pcsaft/test_parameters.json", None, IdentifierOption::Name) else { continue };
+        let eos = Arc::new(PcSaft::new(Arc::new(params)));
+        for it in 0..8 {
+            let t = (300.0 + 20.0 * it as f64) * KELVIN;
+            for x1 in [0.2, 0.5, 0.8] {
+                let x = arr1(&[x1, 1.0 - x1]);
+                for bubble in [true, false] {
+                    let r = if bubble { PhaseEquilibrium::bubble_point(&eos, t, &x, None, None, Default::default()) } else { PhaseEquilibrium::dew_point(&eos, t, &x, None, None, Default::default()) };
+                    if let Ok(vle) = r {
+                        // the library's own criterion for copies (relative deviation of every partial density < 1e-5)
+                        if PhaseEquilibrium::is_trivial_solution(vle.vapor(), vle.liquid()) {
+                            n_bad += 1;
+                            if n_bad <= 4 { println!("WITNESS {}({a}/{b}, T={t}, spec x={x}) returned Ok with two copies of one phase: rho_v={} rho_l={}", if bubble { "bubble_point" } else { "dew_point" }, vle.vapor().partial_density, vle.liquid().partial_density); }
+                        }
+                    }
+                }
+            }
+        }
+    }
+    println!("copies found: {n_bad}");
+}
